@@ -36,13 +36,76 @@ def reference(pattern_text, text, method):
     raise HarnessError(method)
 
 
+RW = ["a", "ab", "abc", "b", "x", "7", "42", "a.b", "(", "[x]", "a|b", "^", "$", "\\", "+", "?", " ", "\n", "é", "λ", "😀", "'\"", "-", "_", "Foo"]
+RCLS = [["named", "AnyLetter"], ["named", "AnyDigit"], ["named", "AnyLowercaseLetter"], ["named", "AnyWordChar"], ["named", "AnyWhitespace"],
+        ["named", "AnyButWhitespace"], ["named", "AnyButDigit"], ["named", "AnyPunctuation"], ["Any"], ["AnyFrom", "a", "b", "\n"],
+        ["AnyButFrom", "a", "\n"], ["AnyBetween", "a", "f"], ["AnyFrom", "]", "^", "-", "\\"], ["named", "AnyGreekLetter"]]
+
+
+def random_pattern(rng):
+    """A random DSL pattern without nested quantifiers (so matching stays polynomial) and the words it is made of."""
+    words = []
+
+    def atom():
+        k = rng.random()
+        if k < 0.5:
+            w = rng.choice(RW)
+            words.append(w)
+            return ["lit", w]
+        if k < 0.9:
+            return rng.choice(RCLS)
+        return ["tok", rng.choice(["Newline", "Space", "Tab", "Backslash", "Dollar"])]
+
+    def quant(x):
+        q = rng.choice(["Optional", "OneOrMore", "Indefinite", "Exactly", "AtLeastAtMost", "AtLeast", "AtMost"])
+        greedy = [] if rng.random() < 0.6 else [rng.random() < 0.5]
+        n = rng.choice([0, 1, 2, 3])
+        args = {"Optional": greedy, "OneOrMore": greedy, "Indefinite": greedy, "Exactly": [n], "AtLeast": [n] + greedy,
+                "AtMost": [rng.choice([1, 2, None])] + greedy, "AtLeastAtMost": [n, n + rng.choice([0, 1, 2])] + greedy}[q]
+        return ["new", q, x] + args
+
+    def term():
+        x = atom()
+        if rng.random() < 0.4:
+            x = quant(x)
+        k = rng.random()
+        if k < 0.15:
+            return ["new", "Capture", x] + ([rng.choice(["g", "h"]) + str(rng.randrange(100))] if rng.random() < 0.4 else [])
+        if k < 0.25:
+            return ["new", "Group", x, rng.random() < 0.5]
+        return x
+
+    def seq():
+        k = rng.random()
+        if k < 0.6:
+            return ["new", "Concat"] + [term() for _ in range(rng.randint(2, 4))]
+        if k < 0.85:
+            return ["new", "Either"] + [term() for _ in range(rng.randint(2, 3))]
+        return term()
+    s = seq()
+    k = rng.random()
+    if k < 0.12:
+        s = ["new", rng.choice(["MatchAtStart", "MatchAtEnd", "MatchAtLineStart", "MatchAtLineEnd"]), s]
+    elif k < 0.24:
+        s = ["new", rng.choice(["FollowedBy", "NotFollowedBy", "PrecededBy", "NotPrecededBy"]), s, atom()]
+    elif k < 0.30:
+        s = ["op", "+", ["op", "+", ["new", "WordBoundary"], s], ["new", "WordBoundary"]]
+    return s, words
+
+
 def generate(run_seed, tier):
     wl, sc, fl = (stream(run_seed, n) for n in ("workload", "schedule", "faults"))
     nbase = wl.randint(1, 4)
     names = [wl.choice(PATTERNS) for _ in range(nbase)]
     instances = {}
+    extra_words = []
     for i, n in enumerate(names):
-        instances["i%d" % i] = {"recipe": corpus.recipe_of(n), "name": n}
+        if wl.random() < 0.35:
+            rec, ws = random_pattern(wl)
+            instances["i%d" % i] = {"recipe": rec, "name": "random"}
+            extra_words.extend(ws)
+        else:
+            instances["i%d" % i] = {"recipe": corpus.recipe_of(n), "name": n}
     k = len(instances)
     aliases = {}
     if wl.random() < 0.5:                       # equal-text duplicate (distinct object)
@@ -59,6 +122,9 @@ def generate(run_seed, tier):
             texts["t%d" % t] = ""
         elif r < 0.3:
             texts["t%d" % t] = wl.choice(corpus.words_of(wl.choice(names)))     # exact witness
+        elif extra_words and r < 0.65:
+            pool = extra_words + ["a", "B", "1", " ", "\n", "x", "λ"]
+            texts["t%d" % t] = "".join(wl.choice(pool) for _ in range(wl.randint(1, 14)))
         else:
             texts["t%d" % t] = corpus.make_text(wl, names, max_words=9)
     tids = sorted(texts)
@@ -93,7 +159,8 @@ def generate(run_seed, tier):
                     nid = "n%d" % newcount
                     newcount += 1
                     nname = wl.choice(PATTERNS)
-                    ops.append({"op": "create", "i": nid, "recipe": corpus.recipe_of(nname), "name": nname})
+                    nrec = corpus.recipe_of(nname) if wl.random() < 0.6 else random_pattern(wl)[0]
+                    ops.append({"op": "create", "i": nid, "recipe": nrec, "name": nname})
                     ids.append(nid)
                 else:
                     ops.append({"op": "gc"})
@@ -139,7 +206,7 @@ def execute(plan, inst, keep_log=False):
     pre_mod._re = proxy
     stats = {"compiled_path": 0, "module_path": 0, "iter_bound_then_switched": 0, "iter_steps": 0,
              "evictions": 0, "alias_ops": 0, "dup_ops": 0, "alloc_fail_fired": 0, "alloc_fail_raised": 0,
-             "drops": 0, "creates": 0, "gcp_checked": 0, "purges": 0, "saturates": 0, "match_ops": 0, "live2plus": 0}
+             "random_patterns": 0, "instances_skipped": 0, "drops": 0, "creates": 0, "gcp_checked": 0, "purges": 0, "saturates": 0, "match_ops": 0, "live2plus": 0}
     cover = set()
     try:
         objs, texts_of, meta = {}, {}, {}
@@ -149,7 +216,10 @@ def execute(plan, inst, keep_log=False):
                 o = recipes.build(spec["recipe"], inst.ns)
             except Exception as e:                       # noqa: BLE001
                 log.add("build_failed", iid, type(e).__name__)
+                stats["instances_skipped"] += 1
                 continue
+            if spec.get("name") == "random":
+                stats["random_patterns"] += 1
             objs[iid] = o
             texts_of[iid] = (str(o), o.get_pattern())
             try:
@@ -157,6 +227,7 @@ def execute(plan, inst, keep_log=False):
             except re.error:
                 del objs[iid]
                 log.add("invalid_pattern", iid)
+                stats["instances_skipped"] += 1
                 continue
             meta[iid] = {"compiled": False, "cache": "warm", "dup": "dup_of" in spec}
         for aid, target in sorted(world.get("aliases", {}).items()):
@@ -448,7 +519,8 @@ def shrink_candidates(plan):
 
 
 EVIDENCE = {
-    "rule": "Runs are generated from (VERIF_SEED, 'C11', run index): 1-4 corpus patterns (DSL-built and hand-written), an "
+    "rule": "Runs are generated from (VERIF_SEED, 'C11', run index): 1-4 patterns (65 % from the corpus of DSL-built and hand-written "
+            "patterns, 35 % random DSL trees without nested quantifiers), an "
             "optional equal-text duplicate and an optional alias, 2-5 texts built from the patterns' witnesses, 1-4 tasks of "
             "matching calls / lazy iterators / cache operations, a seeded schedule, and allocation faults at the re seam. "
             "Distinct = distinct event digest. Non-trivial = an allocation fault actually fired, or a live iterator that was "
@@ -456,7 +528,7 @@ EVIDENCE = {
             "taken in a run with task switches, or a cache eviction happened.",
     "measure": "(op kind, compiled? of the target, #live iterators on it {0,1,2+}, binding of the oldest live iterator, "
                "re cache {cold,warm,saturated}, fault pending?, target is alias/duplicate/plain)",
-    "probes": ["drops", "creates", "compiled_path", "module_path", "iter_bound_then_switched", "evictions", "alias_ops", "dup_ops",
+    "probes": ["random_patterns", "drops", "creates", "compiled_path", "module_path", "iter_bound_then_switched", "evictions", "alias_ops", "dup_ops",
                "alloc_fail_raised", "gcp_checked", "live2plus"],
     "fault_kinds": ["alloc_fail", "purge", "saturate"],
     "components": {
